@@ -164,7 +164,7 @@ Drained ==
   /\ DoEmitDrained
   /\ bad' = bad \cup Flag(CanEmitDrained, "DrainedTwiceOrEarly")
                 \cup Flag(~e.dup, "DrainedTwiceOrEarly")
-                \cup Flag(e.epc_post = e.epc_pre - 1, "EndpointDidNotForget")
+                \cup Flag(e.epc_post = e.epc_pre - 1 /\ e.left = 0, "EndpointDidNotForget")
   /\ l' = l + 1
   /\ UNCHANGED <<t0, idle, tEnter, pto3, lastRx, lastRestart, pto3r, idleR, aeSinceRx, itm, ctm,
                  closes, mustAnnounce, started, hostile, late, cur>>
